@@ -246,7 +246,7 @@ func genC16(c *Ctx) {
 	rp := []pk{{"fix:3600000000000", 3600000000000}, {"fix:900000000000", 900000000000}, {"day", 86400000000000},
 		{"fix:1000000000", 1000000000}, {"fix:7", 7}, {"fix:3600000000000@19800", 3600000000000}, {"fix:86400000000000@-18000", 86400000000000}}
 	typeSets := []string{"i", "f", "if", "fi", "ffi", "iif"}
-	iters := c.Pick(2500, 40000)
+	iters := c.Pick(2500, 100000)
 	for it := 0; it < iters; it++ {
 		r := c.Rng
 		p := rp[r.Intn(len(rp))]
@@ -301,5 +301,54 @@ func genC16(c *Ctx) {
 			}
 		}
 		emitC16(c, p.name, mode, types, raw, pts)
+	}
+	// calendar periods across daylight-saving changes: the model's period is the table of starts obtained from
+	// GetStartTime; the real gap filler steps with GetEndTime - stepping off that grid (e.g. "+24h") is a divergence.
+	for _, sp := range tsTabSpecs {
+		np := c.Pick(7, 9)
+		if sp.kind != "day" {
+			np = 4
+		}
+		name, bs := tsBuildTable(sp.kind, sp.zone, sp.from, np+2)
+		if name == "" {
+			continue
+		}
+		for _, mode := range modes {
+			for _, types := range []string{"f", "if"} {
+				for mask := 1; mask < 1<<uint(np); mask++ {
+					var pts []tsPoint
+					for i := 0; i < np; i++ {
+						if mask&(1<<uint(i)) != 0 {
+							pts = append(pts, tsPoint{bs[i], tsRowFor(types, true, nil, len(pts))})
+						}
+					}
+					emitC16(c, name, mode, types, false, pts)
+				}
+			}
+		}
+		// raw series through the filters
+		for it := 0; it < c.Pick(60, 600); it++ {
+			r := c.Rng
+			types := typeSets[r.Intn(len(typeSets))]
+			cnt := r.Small(10)
+			var ts []int64
+			for i := 0; i < cnt; i++ {
+				j := r.Intn(np)
+				switch r.Intn(4) {
+				case 0:
+					ts = append(ts, bs[j])
+				case 1:
+					ts = append(ts, bs[j+1]-1)
+				default:
+					ts = append(ts, bs[j]+int64(r.Next()%uint64(bs[j+1]-bs[j])))
+				}
+			}
+			sort.Slice(ts, func(a, b int) bool { return ts[a] < ts[b] })
+			pts := make([]tsPoint, len(ts))
+			for i, t := range ts {
+				pts[i] = tsPoint{t, tsRowFor(types, true, r, i)}
+			}
+			emitC16(c, name, modes[r.Intn(2)], types, true, pts)
+		}
 	}
 }
